@@ -70,6 +70,14 @@ def main(tier: str) -> int:
         for _ in range(25 if tier == "quick" else 250):
             t = Tree.random_tree(us, rng.randint(1, 5))
             nets.append((f"gp:{t}", genotype_to_phenotype_tree(t, nv, nout, "softmax" if nout > 1 else "ln", off), nv))
+    # degenerate output layers: a softmax layer of ONE unit (a classifier net built for a single class)
+    for hl in ((), (2,)):
+        est1 = MLPEAClassifier(n_iter=2, pop_size=4, hidden_layers=hl, offset=True)
+        nets.append((f"mlp{hl}+b:MLPEAClassifier:one-output", est1._defitne_net(4, 1), 4))
+    us1 = init_net_uniset(3, 1, 3, True)
+    for _ in range(6):
+        t = Tree.random_tree(us1, rng.randint(1, 4))
+        nets.append((f"gp1:{t}", genotype_to_phenotype_tree(t, 3, 1, "softmax", True), 3))
     for name, net in hand_nets():
         nets.append(("hand:" + name, net, len(net._inputs)))
 
